@@ -21,7 +21,7 @@ ASSUMPTIONS = [
     "step bound for beta1>0 is evaluated on the pre-momentum preconditioned gradient recovered from "
     "the update and the dequantised stored momentum",
 ]
-DECIDING = ["cover_checked", "step_bound_checked", "rank1_equality_checked", "monotone_checked"]
+DECIDING = ["cover_checked", "step_bound_checked", "rank1_equality_checked", "monotone_checked", "momentum_increment_checked"]
 MIN_NONTRIVIAL = 30
 TIMEOUT = {"quick": 900, "thorough": 5400}
 
@@ -149,6 +149,17 @@ def check_case(c, rec):
       i = np.unravel_index(np.argmax(np.abs(pg) - ada - tol), shape)
       rec.violation("step-larger-than-adagrad", "step %d coord %s: |sm3 step| %.6g > AdaGrad/RMSProp step %.6g" % (
           t, i, abs(pg[i]), ada[i]), wit)
+      return
+    # the momentum stored in the state advances by the (bounded) preconditioned gradient only: weight decay and the
+    # learning rate must not leak into it (they would be re-applied, scaled by beta1, on every later step)
+    m_post = np.asarray(st.stats["w"].diagonal_momentum.to_float(), np.float64)
+    inc = m_post - b1 * m_pre
+    qb = np.max(np.abs(m_post), axis=0) / 127.0 * 0.52 + 1e-30 if m_post.ndim >= 1 else 0.0
+    rec.count("momentum_increment_checked", int(nu.size))
+    if np.any(np.abs(inc) > wm * ada * (1 + 1e-5) + qb + tol):
+      i = np.unravel_index(np.argmax(np.abs(inc) - wm * ada - qb), shape)
+      rec.violation("momentum-increment-exceeds-step", "step %d coord %s: stored momentum advanced by %.6g, more than the AdaGrad/RMSProp step %.6g allows (weight decay %.3g, beta1 %.3g)" % (
+          t, i, abs(inc[i]), wm * ada[i], wd, b1), wit)
       return
     if len(shape) == 1:
       rec.count("rank1_equality_checked", int(nu.size))
